@@ -15,7 +15,7 @@
 #include "vf_walk.h"
 
 #define L_CFG ((size_t)CBOR_MAX_STACK_SIZE)
-enum { K_ACCEPTED = VC_USER, K_REJECTED, K_AT_LIMIT, K_OVER_LIMIT, K_DEEP4L, K_STACK_MEASURED, K_MAX_STACK, K_MAX_STACK_REJECT, K_PATTERNS, K_FULLSEQ };
+enum { K_ACCEPTED = VC_USER, K_REJECTED, K_AT_LIMIT, K_OVER_LIMIT, K_DEEP4L, K_STACK_MEASURED, K_MAX_STACK, K_MAX_STACK_REJECT, K_PATTERNS, K_FULLSEQ, K_WIDE };
 
 /* openers: tag, definite array(1), indefinite array, definite map (nested item is the key), definite map (nested item is the value),
  * indefinite map (key), indefinite map (value); innermost optionally a chunked byte / text string */
@@ -207,6 +207,43 @@ static void judge(const uint8_t* seq, size_t depth, int innermost, bool distinct
   if (va.errors) vf_fail(NULL, "allocator protocol violated: %s", va.last_error);
 }
 
+/* wide, shallow trees: the native stack needed by load / describe / serialize / copy / release is bounded by the nesting depth, not by how many
+ * entries one level holds. One level (legal for every L >= 1) of 1000 and of 65 540 entries, four container kinds */
+static const unsigned WIDE_N[] = {1000, 65540};
+static void wide_case(unsigned kind, unsigned ni) {
+  unsigned cnt = WIDE_N[ni];
+  uint8_t d[2] = {(uint8_t)kind, (uint8_t)ni};
+  vf_case("wide", d, 2);
+  vf_cnt(VC_EVAL, 1);
+  vf_cnt(VC_TRACES, 1);
+  vf_cnt(VC_DISTINCT, 1);
+  vf_cnt(K_WIDE, 1);
+  uint8_t* in = malloc(2 * (size_t)cnt + 16);
+  size_t n = 0;
+  if (kind == 0) { n += ref_put_head(in, 16, 0, 4, cnt, 0); for (unsigned i = 0; i < cnt; i++) in[n++] = (uint8_t)(i % 24); }
+  else if (kind == 1) { in[n++] = 0x9f; for (unsigned i = 0; i < cnt; i++) in[n++] = (uint8_t)(i % 24); in[n++] = 0xff; }
+  else if (kind == 2) { n += ref_put_head(in, 16, 0, 5, cnt, 0); for (unsigned i = 0; i < cnt; i++) { in[n++] = (uint8_t)(i % 24); in[n++] = 0xf6; } }
+  else { in[n++] = 0x7f; for (unsigned i = 0; i < cnt; i++) in[n++] = 0x60; in[n++] = 0xff; }
+  va_reset();
+  J.in = in;
+  J.n = n;
+  J.noncanon = 0;
+  size_t used = run_on_painted_stack();
+  vf_cnt(K_STACK_MEASURED, 1);
+  if (!J.accepted) vf_fail(NULL, "a one-level container of %u entries (kind %u) is rejected with code %d at %zu", cnt, kind, J.code, J.pos);
+  else {
+    if (J.read != n) vf_fail(NULL, "read %zu of %zu", J.read, n);
+    if (!J.pipeline_ok) vf_fail(NULL, "pipeline on a one-level container of %u entries: %s", cnt, J.msg);
+  }
+#ifdef VF_STACK_BUDGET
+  size_t budget = 16384 + 256 * 1;
+  if (used > budget) vf_fail(NULL, "load/describe/serialize/copy/release of a ONE-level container of %u entries used %zu bytes of native stack (budget %zu: stack use must follow the depth, not the width)", cnt, used, budget);
+  if (used > vf_cnt_get_local(K_MAX_STACK)) vf_cnt(K_MAX_STACK, used - vf_cnt_get_local(K_MAX_STACK));
+#endif
+  (void)used;
+  free(in);
+  if (va.live) va_release_all();
+}
 static size_t DEPTHS[4];
 static uint64_t full_units, pat_units;
 static unsigned full_maxdepth;
@@ -246,9 +283,12 @@ static void pattern_unit(unsigned p) {
 static void unit(uint64_t u) {
   va_cap = 1ull << 30;
   if (u < full_units) { full_unit((unsigned)u); return; }
-  pattern_unit((unsigned)(u - full_units));
+  u -= full_units;
+  if (u < pat_units) { pattern_unit((unsigned)u); return; }
+  u -= pat_units;
+  wide_case((unsigned)(u / 2), (unsigned)(u % 2));
 }
-static uint64_t units(void) { return full_units + pat_units; }
+static uint64_t units(void) { return full_units + pat_units + 8; }
 static void init(void) {
   va_install();
   devnull = fopen("/dev/null", "w");
@@ -268,7 +308,7 @@ static void init(void) {
 #endif
 }
 static void replay(const char* tag, const uint8_t* d, size_t len) {
-  (void)tag;
+  if (!strcmp(tag, "wide")) { va_cap = 1ull << 30; if (len >= 2) wide_case(d[0] % 4, d[1] % 2); return; }
   if (len < 9) return;
   uint64_t depth;
   memcpy(&depth, d, 8);
@@ -297,6 +337,6 @@ struct vf_check vf_the_check = {
                     "a guard page below the measuring stack turns exhaustion into a SIGSEGV attributed to the case"},
     .counters = {[VC_EVAL] = "inputs_judged", [VC_DISTINCT] = "distinct_inputs", [VC_TRANS] = "reference_heads_consumed", [VC_TRACES] = "executed_on_implementation",
                  [K_ACCEPTED] = "within_limit", [K_REJECTED] = "beyond_limit", [K_AT_LIMIT] = "exactly_at_limit", [K_OVER_LIMIT] = "one_level_over_limit", [K_DEEP4L] = "depth_4L_or_more",
-                 [K_STACK_MEASURED] = "stack_measurements", [K_MAX_STACK] = "sum_over_workers_of_max_stack_bytes_accepted", [K_MAX_STACK_REJECT] = "sum_over_workers_of_max_stack_bytes_rejected",
+                 [K_STACK_MEASURED] = "stack_measurements", [K_WIDE] = "wide_one_level_containers", [K_MAX_STACK] = "sum_over_workers_of_max_stack_bytes_accepted", [K_MAX_STACK_REJECT] = "sum_over_workers_of_max_stack_bytes_rejected",
                  [K_PATTERNS] = "periodic_patterns", [K_FULLSEQ] = "complete_opener_sequences"},
     .init = init, .units = units, .unit = unit, .replay = replay};
